@@ -158,6 +158,8 @@ class Facts:
             d = json.load(f)
         from .simplify import strip_drop_scaffolding
         self.stripped = strip_drop_scaffolding(d)
+        from .canon import canonicalise_moves
+        d, self.moved = canonicalise_moves(d)
         from .canon import canonicalise_adts
         d, self.renamed_adts = canonicalise_adts(d)
         from .canon import canonicalise
@@ -166,6 +168,8 @@ class Facts:
         d, self.renamed_fields = canonicalise_fields(d)
         from .canon import tupleise_new_structs
         d, self.tupleised = tupleise_new_structs(d)
+        from .canon import lower_new_flag_enums
+        d, self.flag_enums = lower_new_flag_enums(d)
         from .inline import inline_new_functions, expose_error_conversions
         d, self.conversions = expose_error_conversions(d)
         d, self.inlined = inline_new_functions(d)
